@@ -112,20 +112,30 @@ def splitOnce (pat : List Char) : List Char → Option (List Char × List Char)
     if pat.isPrefixOf (c :: tl) then some ([], (c :: tl).drop pat.length)
     else (splitOnce pat tl).map (fun (a, b) => (c :: a, b))
 
-/-- `Env::assign_from_string` (`+=` is looked for before `=`) -/
+/-- `str::strip_suffix('+')` -/
+def stripPlus (var : List Char) : Option (List Char) :=
+  match var.reverse with
+  | '+' :: rest => some rest.reverse
+  | _ => none
+
+/-- `Env::assign_from_string`: the first `=` separates variable and value; `VAR+=value` appends -/
 def Env.assignFromString (e : Env) (a : String) : Option Env :=
-  match splitOnce ['+', '='] a.toList with
-  | some (var, value) => some (e.merge [(String.ofList var, .list [String.ofList value])])
-  | none =>
-    match splitOnce ['='] a.toList with
-    | some (var, value) => some (e.merge [(String.ofList var, .single (String.ofList value))])
-    | none => none
+  match splitOnce ['='] a.toList with
+  | some (var, value) =>
+    (match stripPlus var with
+     | some v => some (e.merge [(String.ofList v, .list [String.ofList value])])
+     | none => some (e.merge [(String.ofList var, .single (String.ofList value))]))
+  | none => none
 
 def flatVars (f : Flat) : Vars := f.map (fun (k, v) => (toB k, toB v))
 
 /-- `nested_env::expand` on strings -/
 def expandS (f : Flat) (pol : Policy) (s : String) : Except XErr String :=
   (expand (flatVars f) pol (toB s)).map ofB
+
+/-- `nested_env::expand_keep_escapes` on strings -/
+def expandKeepS (f : Flat) (pol : Policy) (s : String) : Except XErr String :=
+  (expandKeep (flatVars f) pol (toB s)).map ofB
 
 def expandEvalS (ev : EvalExpr) (f : Flat) (pol : Policy) (s : String) : Except XErr String :=
   (expandEval ev (flatVars f) pol (toB s)).map ofB
@@ -134,7 +144,7 @@ def expandEvalS (ev : EvalExpr) (f : Flat) (pol : Policy) (s : String) : Except 
 def Env.expandEarly (e : Env) (values : Env) : Except XErr Env :=
   let f := values.flatten
   e.mapM (fun (k, v) => match v with
-    | .single s => (expandS f .ignore s).map (fun r => (k, EnvKey.single r))
-    | .list l => (l.mapM (expandS f .ignore)).map (fun r => (k, EnvKey.list r)))
+    | .single s => (expandKeepS f .ignore s).map (fun r => (k, EnvKey.single r))
+    | .list l => (l.mapM (expandKeepS f .ignore)).map (fun r => (k, EnvKey.list r)))
 
 end Laze
